@@ -109,6 +109,7 @@ type ED struct {
 	SnapPruned    bool // settled by a seek to a snapshot whose view of this message may have lost a pruned ack
 	GuessBound    bool // its ack id was bound by a guess among equally plausible candidates
 	MaybeTaken    bool // optional copy that lost such a guess: the row seen may really have been this one
+	LateCopy      bool // optional dead-letter copy for a target that appeared after the move may already have happened
 	MaybeCopy     bool // bound by a guess among copies of one message, one of them dead-letter forwarded
 	Grace         bool // acknowledged, but the server may not have committed it yet (stalled-server push runs)
 	Round         int  // incremented whenever a seek (possibly) re-opened this delivery: a new dead-letter round
@@ -963,6 +964,9 @@ func (m *Model) deadLetter(e *ED, t0, t1 time.Time) {
 		if ex != nil && wasMaybe && ex.MaybeTaken {
 			continue // a delivery bound to a sibling copy by a guess may have been this one: stays optional
 		}
+		if ex != nil && wasMaybe && ex.LateCopy {
+			continue // the target appeared after the move may already have happened: stays optional
+		}
 		if ex != nil && wasMaybe && ex.BySeek {
 			// a seek went over the optional copy meanwhile: if it existed then, the seek
 			// settled or re-opened it; if it is created only now, it is outstanding. Stays optional.
@@ -1008,6 +1012,8 @@ func (m *Model) deadLetter(e *ED, t0, t1 time.Time) {
 }
 
 func (m *Model) deadLetterMaybe(e *ED, t0 time.Time) {
+	already := e.DLMaybe // the move may have happened before: a copy created for a target that
+	// appears (or starts matching) only now exists only if the move has NOT happened yet
 	e.DLMaybe = true
 	m.probe("dl_maybe")
 	dl := e.Sub.Cfg.DLTopic
@@ -1032,6 +1038,7 @@ func (m *Model) deadLetterMaybe(e *ED, t0 time.Time) {
 		f.LeaseHi = farFuture
 		f.RetHi = farFuture
 		f.FwdRound = e.Round
+		f.LateCopy = already
 		e.Fwd = append(e.Fwd, f)
 	}
 }
